@@ -2,19 +2,24 @@
 //
 // Two kinds of cases (first decoded choice; 0 selects A):
 //  A  history of 1..40 operations on a LOCAL MemoryLeakDetector with a recording reporter that returns:
-//     alloc (4 families x {raw allocator, second allocator object with the same name, AccountingTestMemoryAllocator
-//     wrapper, MemoryLeakAllocator wrapper}, both node layouts), byte write at an offset in [0,size+2], release of a
-//     live / NULL / foreign / interior / already released address with any family and wrapper, type checking on/off,
-//     period changes.  Oracle = the statement's decision list, evaluated on an independent model after every step.
+//     alloc (4 families x {raw allocator, second allocator object with the same name} x a CHAIN of 0..3 wrapper layers,
+//     every layer an AccountingTestMemoryAllocator or a MemoryLeakAllocator, in any order; both node layouts), byte write at
+//     an offset in [0,size+2], release of a live / NULL / foreign / interior / already released address with any family
+//     and any wrapper chain (nesting depth independent of the allocating side), type checking on/off, period changes.  Oracle = the statement's decision list, evaluated on an independent model after every step.
 //  B  script of 1..24 operations through the GLOBAL entry points (operator new / new[] / cpputest_malloc_location and
 //     the three release entry points) inside an "overloads ON" window with recording allocators installed as current
-//     new / new[] / malloc allocators (optionally behind AccountingTestMemoryAllocator wrappers, which is what
-//     GlobalMemoryAccountant::start() installs): the same decision list plus poisoning - when the recording allocator's
+//     new / new[] / malloc allocators behind 0..3 nested AccountingTestMemoryAllocator wrappers (what 0..3
+//     GlobalMemoryAccountant::start() calls install); the nesting depth changes inside the script, so blocks are released at
+//     another depth than they were allocated at: the same decision list plus poisoning - when the recording allocator's
 //     free_memory is handed a released block, its first <user size> bytes must all have been overwritten (0xCD).
 //
 // The recording allocators only RECORD releases (real free happens at the end of the case), so stale addresses stay
 // non-outstanding for the whole case and nothing is freed twice whatever the detector does after reporting.
-#include "common.h"
+#include <map>
+#include <tuple>
+#include <memory>
+#include <functional>
+#include "common.h"        // (std headers first: common.h brings in the `new` macro)
 #include "CppUTest/TestHarness_c.h"
 #undef new
 #undef malloc
@@ -103,19 +108,31 @@ struct Rep : MemoryLeakFailure {
 // families and allocator objects
 // ---------------------------------------------------------------------------------------------------------------
 enum { F_NEW = 0, F_NEWARR = 1, F_MALLOC = 2, F_USER = 3, NFAM = 4 };
-enum { V_RAW = 0, V_TWIN = 1, V_ACCT = 2, V_MLA = 3, NVAR = 4 };
+enum { MAXDEPTH = 3 };
+// wrapper chain: innermost real allocator (base 0 = raw recording allocator, 1 = second object with the same name) and
+// `depth` layers; bit i of `bits` set = layer i (0 = innermost) is a MemoryLeakAllocator, else an AccountingTestMemoryAllocator
+struct Chain { int base, depth, bits; };
+int mla_count(const Chain& c) { int n = 0; for (int i = 0; i < c.depth; i++) n += (c.bits >> i) & 1; return n; }
+std::string chain_name(int fam, const Chain& c, const char* const* names);
 const char* fam_name[NFAM] = {"new", "new[]", "malloc", "user"};
 const char* fam_rel[NFAM] = {"delete", "delete[]", "free", "ufree"};
-const char* var_name[NVAR] = {"raw", "twin", "accounting", "leakalloc"};
+std::string chain_name(int fam, const Chain& c, const char* const* names) {
+    std::string s = std::string(names[fam]) + (c.base ? ":twin" : "");
+    for (int i = 0; i < c.depth; i++) s = std::string(((c.bits >> i) & 1) ? "L(" : "A(") + s + ")";     // A = accounting, L = leak allocator
+    return s;
+}
+Chain gen_chain(verif::Reader& r) {
+    Chain c; c.base = (int)r.below(2); c.depth = (int)r.below(MAXDEPTH + 1); c.bits = c.depth ? (int)r.below(1u << c.depth) : 0;
+    return c;
+}
 
 Rec* g_raw[NFAM][2];
-MemoryLeakAllocator* g_mla[NFAM];
 MemoryLeakDetector* g_saved_detector; MemoryLeakFailure* g_saved_reporter;
 char* g_foreign;                      // a heap block the detector never saw
 char g_static_foreign[64];
 Rep g_rep, g_inner_rep;
 
-struct Blk { char* p; size_t size; int fam, var; bool sep; bool live; unsigned char guard[3]; };
+struct Blk { char* p; size_t size; int fam; Chain chain; bool sep; bool live; unsigned char guard[3]; };
 
 int expect_release(const Blk* b, bool checking, int relfam) {
     if (!b) return NONALLOC;                                   // not an outstanding tracked block
@@ -164,17 +181,21 @@ int run_local(Reader& r, bool& nontrivial, std::string& desc) {
     MemoryLeakDetector det(&g_rep);
     det.enable();
     MemoryAccountant accountant;
-    AccountingTestMemoryAllocator acct0(accountant, g_raw[0][0]), acct1(accountant, g_raw[1][0]), acct2(accountant, g_raw[2][0]), acct3(accountant, g_raw[3][0]);
-    AccountingTestMemoryAllocator* acct[NFAM] = {&acct0, &acct1, &acct2, &acct3};
-    auto allocator_of = [&](int fam, int var) -> TestMemoryAllocator* {
-        switch (var) {
-        default:
-        case V_RAW: return g_raw[fam][0];
-        case V_TWIN: return g_raw[fam][1];
-        case V_ACCT: return acct[fam];
-        case V_MLA: return g_mla[fam];
-        }
+    // wrapper objects of this case; a chain shares the objects of its inner part with every chain that has the same inner part
+    std::map<std::tuple<int, int, int, int>, TestMemoryAllocator*> pool;
+    std::vector<std::unique_ptr<TestMemoryAllocator>> owned;
+    std::function<TestMemoryAllocator*(int, int, int, int)> build = [&](int fam, int base, int depth, int bits) -> TestMemoryAllocator* {
+        if (depth == 0) return g_raw[fam][base];
+        auto key = std::make_tuple(fam, base, depth, bits);
+        auto it = pool.find(key);
+        if (it != pool.end()) return it->second;
+        TestMemoryAllocator* below = build(fam, base, depth - 1, bits & ((1 << (depth - 1)) - 1));
+        TestMemoryAllocator* a = ((bits >> (depth - 1)) & 1) ? (TestMemoryAllocator*)new MemoryLeakAllocator(below)
+                                                             : (TestMemoryAllocator*)new AccountingTestMemoryAllocator(accountant, below);
+        owned.emplace_back(a); pool[key] = a;
+        return a;
     };
+    auto allocator_of = [&](int fam, const Chain& c) -> TestMemoryAllocator* { return build(fam, c.base, c.depth, c.bits); };
 
     std::vector<Blk> blocks;
     bool checking = true;
@@ -205,16 +226,18 @@ int run_local(Reader& r, bool& nontrivial, std::string& desc) {
         }
         if (kind <= 2) {
             Blk b;
-            b.fam = (int)r.below(NFAM); b.var = (int)r.below(NVAR);
+            b.fam = (int)r.below(NFAM); b.chain = gen_chain(r);
             b.size = gen_size(r, 300); b.sep = r.flag(); b.live = true; memcpy(b.guard, "BAS", 3);
             const char* file = FILES[r.below(2)]; size_t line = r.below(200);
-            b.p = det.allocMemory(allocator_of(b.fam, b.var), b.size, file, line, b.sep);
-            V_CHECK(b.p != NULLPTR, "C06:alloc-null", "allocMemory(%s/%s, %zu) returned NULL", fam_name[b.fam], var_name[b.var], b.size);
+            b.p = det.allocMemory(allocator_of(b.fam, b.chain), b.size, file, line, b.sep);
+            V_CHECK(b.p != NULLPTR, "C06:alloc-null", "allocMemory(%s, %zu) returned NULL", chain_name(b.fam, b.chain, fam_name).c_str(), b.size);
             memset(b.p, 0x11 + (int)(blocks.size() & 7), b.size);
             blocks.push_back(b);
-            verif::cls("alloc"); verif::cls(b.var == V_RAW ? "alloc:raw" : b.var == V_TWIN ? "alloc:twin-object" : b.var == V_ACCT ? "alloc:accounting-wrapper" : "alloc:leakallocator-wrapper");
+            verif::cls("alloc"); verif::cls(sfmt("alloc:chain-depth-%d", b.chain.depth).c_str());
+            if (b.chain.base) verif::cls("alloc:twin-object");
+            if (b.chain.depth >= 2 && mla_count(b.chain) && mla_count(b.chain) < b.chain.depth) verif::cls("alloc:mixed-accounting-and-leakallocator-layers");
             if (b.size == 0) verif::cls("alloc:size-0");
-            what = sfmt("alloc #%zu %s/%s size=%zu %s", blocks.size() - 1, fam_name[b.fam], var_name[b.var], b.size, b.sep ? "separate-node" : "inline-node");
+            what = sfmt("alloc #%zu %s size=%zu %s", blocks.size() - 1, chain_name(b.fam, b.chain, fam_name).c_str(), b.size, b.sep ? "separate-node" : "inline-node");
         } else if (kind >= 5 && kind <= 7) {
             // target address
             char* addr = NULLPTR; Blk* target = nullptr; const char* tk = "null";
@@ -225,13 +248,20 @@ int run_local(Reader& r, bool& nontrivial, std::string& desc) {
             else if (t == 6 && !dead.empty()) { addr = blocks[dead[r.below((uint32_t)dead.size())]].p; tk = "already-released"; }
             else if (t == 7 && !live.empty()) { Blk& b = blocks[live[r.below((uint32_t)live.size())]]; addr = b.p + 1 + r.below((uint32_t)b.size + 2); tk = "interior"; }
             else if (t == 8 || (t <= 7)) { if (r.flag()) addr = g_foreign + r.below(64); else addr = g_static_foreign + r.below(64); tk = "foreign"; }
-            int relfam = (int)r.below(NFAM), relvar = (int)r.below(NVAR);
+            int relfam = (int)r.below(NFAM); Chain rel = gen_chain(r);
             bool sep = r.flag();
             if (r.chance(1, 2) && target) relfam = target->fam;          // half of the live releases are correctly paired
             if (target) {
                 sep = target->sep;                                       // node layout is a property of the block, not of the release
-                // a MemoryLeakAllocator wrapper nests its blocks in the global detector; keep that nesting consistent
-                if (target->var == V_MLA) relvar = V_MLA; else if (relvar == V_MLA) relvar = V_RAW;
+                // every MemoryLeakAllocator layer nests the block once more in the global detector: the releasing chain gets as
+                // many such layers as the allocating one (their positions and the accounting layers stay free)
+                int want_mla = mla_count(target->chain);
+                if (rel.depth < want_mla) rel.depth = want_mla;
+                for (int i = rel.depth - 1; i >= 0 && mla_count(rel) != want_mla; i--) {
+                    bool is_mla = (rel.bits >> i) & 1;
+                    if (mla_count(rel) > want_mla && is_mla) rel.bits &= ~(1 << i);
+                    else if (mla_count(rel) < want_mla && !is_mla) rel.bits |= (1 << i);
+                }
             }
             const char* file = FILES[1 + r.below(2)]; size_t line = r.below(200);
             // the address decides, not the way it was chosen
@@ -240,15 +270,20 @@ int run_local(Reader& r, bool& nontrivial, std::string& desc) {
             expected = addr ? expect_release(hit, checking, relfam) : NONE;
             if (addr && !hit) nontrivial = true;
             if (hit && hit->fam != relfam) nontrivial = true;
-            what = sfmt("release %s addr=%s%s as %s/%s%s -> expect %s", tk, hit ? sfmt("#%d", (int)(hit - &blocks[0])).c_str() : (addr ? "?" : "NULL"),
-                        hit && memcmp(hit->guard, "BAS", 3) ? "(guard damaged)" : "", fam_rel[relfam], var_name[relvar], checking ? "" : " [type checking off]", cat_name(expected));
+            what = sfmt("release %s addr=%s%s as %s%s%s -> expect %s", tk, hit ? sfmt("#%d", (int)(hit - &blocks[0])).c_str() : (addr ? "?" : "NULL"),
+                        hit && memcmp(hit->guard, "BAS", 3) ? "(guard damaged)" : "", "", chain_name(relfam, rel, fam_rel).c_str(), checking ? "" : " [type checking off]", cat_name(expected));
             int bogus_before = g_bogus_free, fev_before = g_nfev;
-            det.deallocMemory(allocator_of(relfam, relvar), addr, file, line, sep);
+            det.deallocMemory(allocator_of(relfam, rel), addr, file, line, sep);
             if (hit) hit->live = false;
             verif::cls("release"); verif::cls((std::string("release:target-") + tk).c_str());
             verif::cls((std::string("expect:") + cat_name(expected)).c_str());
             if (hit && hit->fam != relfam && !checking) verif::cls("release:mismatching-pair-with-checking-off");
-            if (hit && (relvar != V_RAW || hit->var != V_RAW)) verif::cls("release:wrapper-or-twin-involved");
+            if (hit && (rel.depth || rel.base || hit->chain.depth || hit->chain.base)) verif::cls("release:wrapper-or-twin-involved");
+            if (hit) {
+                verif::cls(sfmt("release:live-through-chain-depth-%d", rel.depth).c_str());
+                if (rel.depth != hit->chain.depth) verif::cls("release:nesting-depth-differs-from-allocation");
+                if (rel.depth >= 2 || hit->chain.depth >= 2) verif::cls(hit->fam != relfam ? "release:nested-chain-cross-family" : "release:nested-chain-same-family");
+            }
             V_CHECK(g_bogus_free == bogus_before, "C06:foreign-address-handed-to-allocator",
                     "%s: the underlying allocator was handed %p, which it never allocated or already got back", what.c_str(), (void*)g_bogus_ptr);
             if (!hit) {
@@ -292,7 +327,8 @@ int run_local(Reader& r, bool& nontrivial, std::string& desc) {
 // mode B: global entry points inside an ON window; decoded completely first, model evaluated at decode time
 // ---------------------------------------------------------------------------------------------------------------
 enum { B_SLOTS = 8, B_OPS = 24 };
-enum BKind { B_ALLOC, B_WRITE, B_RELEASE_LIVE, B_RELEASE_NULL, B_RELEASE_STALE, B_RELEASE_INTERIOR, B_NOP };
+enum BKind { B_ALLOC, B_WRITE, B_RELEASE_LIVE, B_RELEASE_NULL, B_RELEASE_STALE, B_RELEASE_INTERIOR, B_DEPTH, B_NOP };
+TestMemoryAllocator* g_blevel[MAXDEPTH + 1][3];    // current-allocator candidates of kind B: [nesting depth][family]
 struct BOp {
     int kind, slot, fam, relfam; size_t size, off; unsigned char val; bool debug_new; const char* file; size_t line;
     int expected;          // category expected for this step
@@ -300,7 +336,8 @@ struct BOp {
     // observed
     int got_callbacks, got_cat; char* addr; int fev_lo, fev_hi;
 };
-struct BSlot { char* p; size_t size; int fam; bool live, ever; unsigned char guard[3]; };
+struct BSlot { char* p; size_t size; int fam, depth; bool live, ever; unsigned char guard[3]; };
+void b_set_depth(int d) { setCurrentNewAllocator(g_blevel[d][0]); setCurrentNewArrayAllocator(g_blevel[d][1]); setCurrentMallocAllocator(g_blevel[d][2]); }
 
 void b_exec(BOp* ops, int n, BSlot* slots) {      // NON-ALLOCATING interpreter (runs with the overloads on)
     for (int i = 0; i < n; i++) {
@@ -316,6 +353,7 @@ void b_exec(BOp* ops, int n, BSlot* slots) {      // NON-ALLOCATING interpreter 
             s.p = p; o.addr = p;
             break; }
         case B_WRITE: s.p[o.off] = (char)o.val; o.addr = s.p; break;
+        case B_DEPTH: b_set_depth((int)o.size); break;      // as if accountants were started / stopped
         case B_RELEASE_LIVE: case B_RELEASE_STALE: case B_RELEASE_INTERIOR: case B_RELEASE_NULL: {
             char* a = o.kind == B_RELEASE_NULL ? NULLPTR : (o.kind == B_RELEASE_INTERIOR ? s.p + o.off : s.p);
             o.addr = a;
@@ -334,7 +372,7 @@ void b_exec(BOp* ops, int n, BSlot* slots) {      // NON-ALLOCATING interpreter 
 int run_global(Reader& r, bool& nontrivial, std::string& desc) {
     static BOp ops[B_OPS]; static BSlot slots[B_SLOTS];
     memset(slots, 0, sizeof slots);
-    bool accounting = r.flag();
+    int depth = (int)r.below(MAXDEPTH + 1), depth0 = depth;      // accounting wrappers around the current allocators
     int period = (int)r.below(3);
     int n = 0;
     std::vector<std::string> text;
@@ -342,13 +380,18 @@ int run_global(Reader& r, bool& nontrivial, std::string& desc) {
         BOp& o = ops[n]; memset(&o, 0, sizeof o);
         o.slot = (int)r.below(B_SLOTS); BSlot& s = slots[o.slot];
         o.file = FILES[r.below(3)]; o.line = r.below(200); o.expected = NONE;
-        uint32_t kind = r.below(8);        // 0-2 alloc, 3 guard/user write, 4-6 release, 7 odd release
+        uint32_t kind = r.below(9);        // 0-2 alloc, 3 guard/user write, 4-6 release, 7 odd release, 8 nesting depth
+        if (kind == 8) {
+            o.kind = B_DEPTH; depth = (int)r.below(MAXDEPTH + 1); o.size = (size_t)depth;
+            text.push_back(sfmt("%d accounting wrapper(s) around the current allocators", depth));
+            n++; continue;
+        }
         if (kind <= 2 && s.live) kind = 4;
         if (kind >= 3 && kind <= 6 && !s.live) kind = s.ever && kind == 6 ? 7 : 0;
         if (kind <= 2) {
             o.kind = B_ALLOC; o.fam = (int)r.below(3); o.size = gen_size(r, 64); o.debug_new = r.flag();
             o.val = (unsigned char)r.pick("\x00\x5a\xff\x42\xcc\xce\xcd");     // fill value of the user bytes; 0xCD itself makes the poison check vacuous
-            s.live = true; s.ever = true; s.size = o.size; s.fam = o.fam; memcpy(s.guard, "BAS", 3);
+            s.live = true; s.ever = true; s.size = o.size; s.fam = o.fam; s.depth = depth; memcpy(s.guard, "BAS", 3);
             text.push_back(sfmt("s%d=%s(%zu) fill=0x%02x", o.slot, fam_name[o.fam], o.size, o.val));
         } else if (kind == 3) {
             o.kind = B_WRITE;
@@ -365,7 +408,7 @@ int run_global(Reader& r, bool& nontrivial, std::string& desc) {
             o.judge_poison = true; o.size = s.size;
             if (s.fam != o.relfam) nontrivial = true;
             if (s.size >= 1) nontrivial = true;
-            s.live = false;
+            s.live = false; o.off = (size_t)(s.depth * 4 + depth);     // (allocation depth, release depth) for the histogram
             text.push_back(sfmt("%s(s%d) -> expect %s + %zu poisoned bytes", fam_rel[o.relfam], o.slot, cat_name(o.expected), s.size));
         } else {
             o.relfam = (int)r.below(3);
@@ -377,7 +420,7 @@ int run_global(Reader& r, bool& nontrivial, std::string& desc) {
         n++;
     }
     for (auto& t : text) { if (desc.size() < 600) desc += t + "; "; }
-    if (verif::g_explain) { fprintf(stderr, "  B accounting-wrappers=%d period=%d\n", (int)accounting, period); for (size_t i = 0; i < text.size(); i++) fprintf(stderr, "  B%02zu %s\n", i + 1, text[i].c_str()); }
+    if (verif::g_explain) { fprintf(stderr, "  B accounting-wrappers=%d period=%d\n", depth0, period); for (size_t i = 0; i < text.size(); i++) fprintf(stderr, "  B%02zu %s\n", i + 1, text[i].c_str()); }
 
     g_rep.reset();
     {
@@ -386,20 +429,28 @@ int run_global(Reader& r, bool& nontrivial, std::string& desc) {
         if (period >= 1) det.enable();
         if (period == 2) det.startChecking();
         MemoryAccountant accountant;
+        MemoryAccountant accountant2, accountant3;       // one accountant per nesting level, as with several GlobalMemoryAccountants
         AccountingTestMemoryAllocator a0(accountant, g_raw[0][0]), a1(accountant, g_raw[1][0]), a2(accountant, g_raw[2][0]);
+        AccountingTestMemoryAllocator b0(accountant2, &a0), b1(accountant2, &a1), b2(accountant2, &a2);
+        AccountingTestMemoryAllocator c0(accountant3, &b0), c1(accountant3, &b1), c2(accountant3, &b2);
+        TestMemoryAllocator* lv[MAXDEPTH + 1][3] = {{g_raw[0][0], g_raw[1][0], g_raw[2][0]}, {&a0, &a1, &a2}, {&b0, &b1, &b2}, {&c0, &c1, &c2}};
+        memcpy(g_blevel, lv, sizeof lv);
         MemoryLeakWarningPlugin::setGlobalDetector(&det, &g_rep);
-        setCurrentNewAllocator(accounting ? (TestMemoryAllocator*)&a0 : g_raw[0][0]);
-        setCurrentNewArrayAllocator(accounting ? (TestMemoryAllocator*)&a1 : g_raw[1][0]);
-        setCurrentMallocAllocator(accounting ? (TestMemoryAllocator*)&a2 : g_raw[2][0]);
+        b_set_depth(depth0);
         MemoryLeakWarningPlugin::turnOnDefaultNotThreadSafeNewDeleteOverloads();
         b_exec(ops, n, slots);
         MemoryLeakWarningPlugin::turnOffNewDeleteOverloads();
     }
-    verif::cls("mode:B-global-entry-points"); if (accounting) verif::cls("B:accounting-wrappers-installed");
+    verif::cls("mode:B-global-entry-points"); verif::cls(sfmt("B:initial-accounting-depth-%d", depth0).c_str());
     for (int i = 0; i < n; i++) {
         BOp& o = ops[i];
         const char* w = text[i].c_str();
-        verif::cls(o.kind == B_ALLOC ? "B:alloc" : o.kind == B_WRITE ? "B:write" : o.kind == B_RELEASE_LIVE ? "B:release-live" : "B:release-odd");
+        verif::cls(o.kind == B_ALLOC ? "B:alloc" : o.kind == B_WRITE ? "B:write" : o.kind == B_RELEASE_LIVE ? "B:release-live" : o.kind == B_DEPTH ? "B:depth-change" : "B:release-odd");
+        if (o.kind == B_RELEASE_LIVE) {
+            int da = (int)o.off / 4, dr = (int)o.off % 4;
+            if (da != dr) verif::cls("B:release-at-other-nesting-depth-than-allocation");
+            if (da >= 2 || dr >= 2) verif::cls(o.expected == MISMATCH ? "B:nested-depth>=2-cross-family" : "B:nested-depth>=2-same-family");
+        }
         int want = o.expected == NONE ? 0 : 1;
         V_CHECK(o.got_callbacks == want, want ? (o.got_callbacks ? "C06:more-than-one-callback" : "C06:misuse-not-reported") : "C06:report-without-misuse",
                 "step %d %s: %d reporter callback(s), expected %d (%s)", i + 1, w, o.got_callbacks, want, cat_name(o.expected));
@@ -416,7 +467,7 @@ int run_global(Reader& r, bool& nontrivial, std::string& desc) {
                     "step %d %s: when the memory was returned only the first %zu of %zu user bytes had been overwritten with 0xCD (byte %zu = 0x%02x)",
                     i + 1, w, ev->cd_prefix, o.size, ev->cd_prefix, (unsigned char)o.addr[ev->cd_prefix]);
             verif::cls(o.size ? "B:poison-judged" : "B:poison-judged-size-0");
-        } else if (o.kind != B_ALLOC && o.kind != B_WRITE) {
+        } else if (o.kind != B_ALLOC && o.kind != B_WRITE && o.kind != B_DEPTH) {
             V_CHECK(handed == 0, "C06:non-outstanding-address-released-to-allocator", "step %d %s: address was passed on to the allocator", i + 1, w);
         }
     }
@@ -434,7 +485,6 @@ extern "C" void verif_init(void) {
         {"Standard Malloc Allocator", "malloc", "free"}, {"verif user allocator", "ualloc", "ufree"}};
     for (int f = 0; f < NFAM; f++) {
         for (int k = 0; k < 2; k++) g_raw[f][k] = new Rec(names[f][0], names[f][1], names[f][2]);
-        g_mla[f] = new MemoryLeakAllocator(g_raw[f][0]);
     }
     g_saved_detector = MemoryLeakWarningPlugin::getGlobalDetector();
     g_saved_reporter = MemoryLeakWarningPlugin::getGlobalFailureReporter();
